@@ -1,8 +1,8 @@
 from props import _io
 
-META = {"level": "bounded",
+META = {"level": "proof+bounded",
         "trusted_base": ['google.protobuf runtime (message classes generated from /repo/proto by protoc)', 'oracles/io_oracles.py reference codec / parser (independent of /repo)'],
         "assumptions": [],
-        "explanation": ''}
+        "explanation": 'The AuxData cell (data getter/setter, _from_protobuf, _to_protobuf, the lazy container) and the top level of Serialization.encode/decode (UnknownData pass-through) are proved for all states over abstract tree codecs; what the tree codecs do for unknown names inside nested types and the multi-generation histories are covered by the bounded stand-in.'}
 
 bounded, replay_obligation = _io.make('C14', 'histories {untouched, read, mutate in place, assign data, assign type_name} x save over several generations for known / unknown / partially unknown type names, expected bytes from the independent reference codec', 2000, 30000)
